@@ -5,7 +5,7 @@
    native_data(_owned), FCI histories) and a wrapper (direct, PacketBuilder::from, one-member compound).
    [member_of_hist] executes the calls the way the code does; [final_config] (coq/Spec/Final.v) is the
    declarative reading: last value per scalar, adds in call order. *)
-From RtcpV Require Import Proofs.C20.
+From RtcpV Require Import Proofs.C20 Proofs.C20b.
 
 Theorem C20_history_is_its_final_configuration :
   forall h : hist, member_of_hist h = final_config h.
@@ -56,3 +56,21 @@ Check C20_fir_readd_keeps_last :
     rfc_fir_lookup (adds ++ [(k, v)]) k = Some v /\
     (forall k', k' <> k -> rfc_fir_lookup (adds ++ [(k, v)]) k' = rfc_fir_lookup adds k').
 Print Assumptions C20_fir_readd_keeps_last.
+
+(* the report-block builder: any order and repetition of its six setters gives the block holding the last value
+   of each field ([rb_of_hist] executes the calls, [final_rb] is the declarative reading) *)
+Theorem C20_report_block_setters_last_value_wins :
+  forall (ssrc : N) (ops : list rb_op), rb_of_hist ssrc ops = final_rb ssrc ops.
+Proof. exact rb_history_is_final. Qed.
+Check C20_report_block_setters_last_value_wins :
+  forall (ssrc : N) (ops : list rb_op), rb_of_hist ssrc ops = final_rb ssrc ops.
+Print Assumptions C20_report_block_setters_last_value_wins.
+
+Theorem C20_report_block_setter_order_is_irrelevant :
+  forall (ssrc : N) (ops1 ops2 : list rb_op),
+    final_rb ssrc ops1 = final_rb ssrc ops2 -> rb_of_hist ssrc ops1 = rb_of_hist ssrc ops2.
+Proof. exact rb_setter_order_irrelevant. Qed.
+Check C20_report_block_setter_order_is_irrelevant :
+  forall (ssrc : N) (ops1 ops2 : list rb_op),
+    final_rb ssrc ops1 = final_rb ssrc ops2 -> rb_of_hist ssrc ops1 = rb_of_hist ssrc ops2.
+Print Assumptions C20_report_block_setter_order_is_irrelevant.
